@@ -928,9 +928,27 @@ class Unit:
             s = ln.strip()
             if s.startswith('//@include'):
                 self._expand(s.split(None, 1)[1].strip(), depth + 1)
-            elif s.startswith('//@item'):
+            elif s.startswith('//@item '):
                 _, srel, kind, name = s.split()
                 ls, prov = build_item(srel, kind, name, self.rewrites)
+                self.lines += ls
+                self.prov.append(prov)
+            elif s.startswith('//@item-subst'):
+                # `//@item-subst <src> <kind> <Name> ||| <from> ||| <to>`: the real definition with ONE field type replaced by a
+                # stand-in type (rule U23; logged).  Used where a field's type cannot be expressed (recursive handle maps).
+                head, frm, to = [x.strip() for x in s.split('|||')]
+                _, srel, kind, name = head.split()
+                ls, prov = build_item(srel, kind, name, self.rewrites)
+                hit = 0
+                for l in ls:
+                    if frm in l.text:
+                        l.text = l.text.replace(frm, to)
+                        hit += 1
+                if hit != 1:
+                    raise LostAnchor('%s: rule U23: `%s` found %d times in %s %s' % (srel, frm, hit, kind, name))
+                w = dict(rule='U23', where='%s:%s %s' % (srel, kind, name), before=frm, after=to)
+                prov['rewrites'].append(w)
+                self.rewrites.append(w)
                 self.lines += ls
                 self.prov.append(prov)
             elif s.startswith('//@derive-clone'):
